@@ -37,6 +37,11 @@ func (n1 jsonNumber) Equals(node JsonNode, options ...Option) bool {
 }
 
 func (n jsonNumber) hashCode(options []Option) [8]byte {
+	if n == 0 {
+		// Normalize negative zero. Equals treats 0 and -0 as the
+		// same number so they must hash the same.
+		n = 0
+	}
 	a := make([]byte, 0, 8)
 	b := bytes.NewBuffer(a)
 	binary.Write(b, binary.LittleEndian, n)
